@@ -79,6 +79,8 @@ namespace occa {
                 // Expand the dimensions:
                 //    (x, y)
                 // -> y + (2 * x)
+                // (every index argument is used as a complete expression: x(i > 7 ? a : b, j)
+                //  must not become x[i > 7 ? a : b + (D * (j))])
                 expr index = call.args[order[dimCount - 1]];
                 for (int i = (dimCount - 2); i >= 0; --i) {
                   const int orderIndex = order[i];
@@ -86,7 +88,7 @@ namespace occa {
                   expr arg = call.args[orderIndex];
                   expr dim = dimAttr.args[orderIndex].expr;
 
-                  index = arg + expr::parens(expr::parens(dim) * expr::parens(index));
+                  index = expr::parens(arg) + expr::parens(expr::parens(dim) * expr::parens(index));
                 }
 
                 expr expansion = expr(call.value)[index];
